@@ -97,6 +97,8 @@ class BufInterp(FinamInterp):
     def ext_call(self, name, args, kwargs, node):
         if name in ("np.stack", "numpy.stack"):
             return Sym("stack", tuple(args[0]))
+        if name.split(".")[-1] in ("array_equal", "allclose", "array_equiv", "may_share_memory", "shares_memory"):
+            return self.decide(Sym(name.split(".")[-1], *args), node)  # value dependent: both outcomes are explored
         return super().ext_call(name, args, kwargs, node)
 
     def ext_isinstance(self, v, name, node):
@@ -107,6 +109,8 @@ class BufInterp(FinamInterp):
     def get_attr(self, obj, attr, node, mod):
         if isinstance(obj, Sym) and obj.op == "P" and attr == "nbytes":
             return Sym("nbytes", obj.args[0])
+        if isinstance(obj, Sym) and obj.op in ("P", "stripped", "pulled", "packed", "unpack", "V") and attr in ("magnitude", "units", "data", "mask"):
+            return Sym("attr", obj, attr)
         if isinstance(obj, Sym) and obj.op == "q" and attr == "total_seconds":
             return Sym("ext", "total_seconds")
         return super().get_attr(obj, attr, node, mod)
@@ -667,6 +671,55 @@ def r26_buffer(repo, sink):
             sink.check(r.name == "FinamTimeError", "R26", f"notify-type:{cname}", f, ok="non-datetime notification raises FinamTimeError", bad=f"raises {r.name}")
         except (Undecided, AnalysisError):
             sink.ok("R26", f"notify-type:{cname}", f, "type check present")
+    # a notification never touches what is already buffered: for every concrete buffering adapter, on every path,
+    # the buffer afterwards is the old buffer followed by the new entry (a lagging or second consumer still needs the
+    # old entries; moving an entry's time stamp moves a node of the interpolant)
+    from .. import lek
+    n_cls = 0
+    for e in [x for x in lek.table(repo)[0] if x.kind == lek.BUFFER]:
+        c = e.cls
+        f = repo.resolve(c, "_source_updated", "method")
+        n_cls += 1
+        worst = None
+        for n, kinds in ((1, ["ram"]), (2, ["ram", "ram"]), (3, ["ram", "file", "ram"])):
+            o = Order()
+            for i in range(n):
+                o.name(T(i), f"t{i}", 4 * i)
+            tn = Sym("tn")
+            o.name(tn, "tn", 4 * n)
+            it = BufInterp(repo, o)
+            objs = []
+
+            def thunk(it=it, objs=objs, c=c, n=n, kinds=kinds, tn=tn, f=f):
+                ob = _adapter_obj(repo, c.name, n, kinds, extra={PREV: T(0)} if repo.is_subclass(c, "TimeIntegrationAdapter") else None)
+                objs.append(ob)
+                it.effects = []
+                it.run(f, [tn], self_obj=ob)
+                return (list(ob.fields["data"]), list(it.effects))
+
+            try:
+                paths = it.run_all(thunk)
+            except (AnalysisError, Undecided) as exc:
+                sink.unknown("R26", f"notify-keeps-buffer:{c.name}", f, f"_source_updated outside vocabulary: {exc}")
+                worst = "skip"
+                break
+            old = [(T(i), P(i, kinds[i])) for i in range(n)]
+            new = (tn, Sym("packed", Sym("stripped", Sym("pulled", tn))))
+            for _d, (kind, val) in paths:
+                if kind == "raise":
+                    worst = worst or f"buffer of {n}: a notification newer than all entries raises {val.name}"
+                    continue
+                data, effects = val
+                if data != old + [new]:
+                    worst = worst or (f"buffer of {n} entries, notification newer than all of them: buffer becomes {data!r}; every old entry must stay "
+                                      "as it is and the new one is appended")
+                elif any(ef[0] == "remove" for ef in effects):
+                    worst = worst or f"buffer of {n}: a notification removes spill files {effects!r}"
+        if worst == "skip":
+            continue
+        sink.check(worst is None, "R26", f"notify-keeps-buffer:{c.name}", f,
+                   ok="a notification appends (time, packed data) and leaves every buffered entry untouched", bad=worst or "")
+    sink.floor("R26", "buffering adapter classes", n_cls, 7)
     # second notification for the integration adapter must not move _prev_time
     f = repo.own("TimeIntegrationAdapter", "_source_updated")
     o = Order()
